@@ -1,10 +1,12 @@
 #!/bin/sh
 # Offline set-up: nothing to build; check that the tools and the specifications are usable.
 cd "$(dirname "$0")" || exit 2
-set -e
+ROOT=$(pwd)
 mkdir -p evidence replays
-for m in spec/*.tla; do
-  java -cp /opt/veriftools/tla/tla2tools.jar:/opt/veriftools/tla/CommunityModules-deps.jar tla2sany.SANY "$m" > /tmp/fsic-sany.$$ 2>&1 || { cat /tmp/fsic-sany.$$; rm -f /tmp/fsic-sany.$$; exit 2; }
+cd spec || exit 2
+for m in *.tla; do
+  out=$(java -cp /opt/veriftools/tla/tla2tools.jar:/opt/veriftools/tla/CommunityModules-deps.jar tla2sany.SANY "$m" 2>&1) || { echo "$out"; exit 2; }
+  case "$out" in *"*** Errors"*|*"Fatal errors"*) echo "$out"; exit 2;; esac
 done
-rm -f /tmp/fsic-sany.$$
-PYTHONPATH=/repo:$(pwd) /venv/bin/python -c "import fsic, numpy, pandas, harness.core; print('setup ok', fsic.__version__)"
+cd "$ROOT" || exit 2
+PYTHONPATH=/repo:$ROOT /venv/bin/python -c "import fsic, numpy, pandas, harness.core; print('setup ok', fsic.__version__)" || exit 2
